@@ -193,6 +193,35 @@ pub fn mutate(mut m: Message, how: &str) -> Option<Message> {
     }
 }
 
+/// number of draws the generator makes on the field stream for `spec`
+pub fn count_field_draws(spec: &GenSpec) -> u32 {
+    let mut scratch = MessageBuilder::new();
+    let mut vg = val_gen_for(spec);
+    let _ = catch_unwind(AssertUnwindSafe(|| {
+        let _ = scratch.build_generated_message(&mut vg, spec.msg);
+    }));
+    vg.field_rng.draws
+}
+
+/// two (or three) builds of one message type whose values differ in exactly one field draw
+/// (all-zero vs all-one pattern), or in two draws with swapped values: what a cache keyed on
+/// a weak digest of the message / payload cannot tell apart
+pub fn toggle_ops(base: &GenSpec, j: u32, swapped: bool) -> Vec<Op> {
+    let with = |f: Vec<(u32, u64)>| -> GenSpec {
+        let mut s = base.clone();
+        s.force = f;
+        s
+    };
+    if swapped {
+        vec![
+            Op::Build { spec: with(vec![(j, 0x5A5A_5A5A_5A5A_5A5A), (j + 2, 0xA5A5_A5A5_A5A5_A5A5)]) },
+            Op::Build { spec: with(vec![(j, 0xA5A5_A5A5_A5A5_A5A5), (j + 2, 0x5A5A_5A5A_5A5A_5A5A)]) },
+        ]
+    } else {
+        vec![Op::Build { spec: with(vec![(j, 0)]) }, Op::Build { spec: with(vec![(j, u64::MAX)]) }, Op::Build { spec: with(vec![(j, 0)]) }]
+    }
+}
+
 pub fn refusal_kinds_for(n: u16) -> &'static [&'static str] {
     if is_msm(n) {
         &["msm_sat0", "msm_mismatch", "msm_dup_cell"]
@@ -531,7 +560,7 @@ pub fn judge_builder(trace: &BuilderTrace, mut stats: Option<&mut Stats>) -> Opt
 // ---------------------------------------------------------------------------
 
 fn draw_spec(r: &mut Rng, subset: &[u16], p_len_max: f64, p_field_max: f64) -> GenSpec {
-    GenSpec { msg: *r.pick(subset), gen_seed: r.next(), p_len_max, p_field_max }
+    GenSpec { msg: *r.pick(subset), gen_seed: r.next(), p_len_max, p_field_max, force: Vec::new() }
 }
 
 /// a spec whose message materialises, or None after a few attempts
@@ -587,7 +616,7 @@ pub fn gen_builder_trace(master: u64, run: u64) -> BuilderTrace {
     let w_generated = if r.chance(0.5) { 2 } else { 0 };
     let w_geninj = if r.chance(0.4) { 1 } else { 0 };
     let total = w_build + w_refused + w_nowire + w_injected + w_generated + w_geninj;
-    let shape = r.below(6); // biased history shapes
+    let shape = r.below(7); // biased history shapes
     let mut ops: Vec<Op> = Vec::new();
     let pick_injected = |r: &mut Rng, subset: &[u16]| -> Option<Op> {
         let (spec, m) = good_spec(r, subset, p_len_max, p_field_max)?;
@@ -608,7 +637,7 @@ pub fn gen_builder_trace(master: u64, run: u64) -> BuilderTrace {
         }
         for _ in 0..4 {
             let n = *r.pick(&refusable);
-            let spec = GenSpec { msg: n, gen_seed: r.next(), p_len_max, p_field_max };
+            let spec = GenSpec { msg: n, gen_seed: r.next(), p_len_max, p_field_max, force: Vec::new() };
             let how = *r.pick(refusal_kinds_for(n));
             if let Some(m) = materialise(&spec) {
                 if mutate(m, how).is_some() {
@@ -654,6 +683,15 @@ pub fn gen_builder_trace(master: u64, run: u64) -> BuilderTrace {
             if let Some((s, _)) = good_spec(&mut r, &subset, p_len_max, p_field_max) {
                 ops.push(Op::Build { spec: s.clone() });
                 ops.push(Op::Build { spec: s });
+            }
+        }
+        5 => {
+            // same type, values differing in one field draw (or two swapped)
+            let pl = *r.pick(&[0.0, 0.0, 0.3]);
+            if let Some((s0, _)) = good_spec(&mut r, &subset, pl, 0.0) {
+                let d = count_field_draws(&s0).max(1);
+                let j = r.below(d as u64) as u32;
+                ops.extend(toggle_ops(&s0, j, r.chance(0.3)));
             }
         }
         4 if !long_types.is_empty() => {
@@ -715,7 +753,7 @@ pub fn gen_builder_trace(master: u64, run: u64) -> BuilderTrace {
 pub fn directed_builder(thorough: bool) -> Vec<BuilderTrace> {
     let all = msg_numbers();
     let mut out = Vec::new();
-    let spec = |msg: u16, seed: u64, pl: f64| GenSpec { msg, gen_seed: seed, p_len_max: pl, p_field_max: 0.0 };
+    let spec = |msg: u16, seed: u64, pl: f64| GenSpec { msg, gen_seed: seed, p_len_max: pl, p_field_max: 0.0, force: Vec::new() };
     let mut idx = 0u64;
     let mut add = |name: &str, ops: Vec<Op>, out: &mut Vec<BuilderTrace>| {
         out.push(BuilderTrace { property: "C12".into(), seed: 0, run: idx, origin: format!("directed:{}", name), ops });
@@ -798,6 +836,17 @@ pub fn directed_builder(thorough: bool) -> Vec<BuilderTrace> {
                 ops.push(Op::Build { spec: spec(long, 1100, 1.0) });
                 ops.push(Op::Build { spec: spec(*tgt, 1200 + ti as u64, 0.0) });
                 add("exactly_n_earlier_builds", ops, &mut out);
+            }
+        }
+    }
+    // every type: pairs differing in exactly one field draw (zeros vs ones), and swapped pairs
+    for (i, n) in all.iter().copied().enumerate() {
+        let base = spec(n, 1300 + i as u64, 0.0);
+        let d = count_field_draws(&base).min(if thorough { 400 } else { 48 });
+        for j in 0..d {
+            add("one_field_zeros_vs_ones", toggle_ops(&base, j, false), &mut out);
+            if j % 4 == 1 {
+                add("two_fields_swapped", toggle_ops(&base, j, true), &mut out);
             }
         }
     }
